@@ -95,7 +95,7 @@ var props = map[string]propSpec{
 	"C06": {"io", "exploration", true, 40, 1200},
 	"C17": {"io", "exploration", false, 40, 1200},
 	"C13": {"io", "exploration", true, 25, 600},
-	"C02": {"io", "exploration", false, 20, 600},
+	"C02": {"io", "exploration", true, 20, 600},
 	"C15": {"conc", "exploration", false, 75, 1500},
 }
 
